@@ -198,7 +198,10 @@ def recordsOut (w : W) : Op → Option String
         match aExtendFields w.units x.numObs y.numObs (absField.absFields w.heap x.fields) (absField.absFields w.heap y.fields) with
         | some cols => some ("x" ++ "/".intercalate ((aLeaves.aLeavesL cols).map (fun p => p.1 ++ "=" ++ showRows p.2)))
         | none => some "x!"
-      else none
+      else
+        -- other kinds: is this the situation of the listed finding (one array under a name the other dataset lacks and
+        -- under a name it has)?  `s1` / `s0`, compared with the same question asked of the real datasets
+        some (if splitSharing x.fields y.fields then "s1" else "s0")
     | _, _ => none
   | _ => none
 
